@@ -348,6 +348,8 @@ func newVisit(v visitor) *visit {
 }
 
 func (v *visit) Visit(n *node, left, right, bottom, top float64) {
+	verifVisit()
+
 	b := v.visitor.Bound()
 	// if left > b.Right() || right < b.Left() ||
 	// 	bottom > b.Top() || top < b.Bottom() {
